@@ -11,6 +11,7 @@ package main
 import (
 	"math"
 	"math/big"
+	"strings"
 )
 
 func isNumByte(c byte) bool {
@@ -107,15 +108,34 @@ func rfcNumber(lit string) bool {
 }
 
 func numEntry(lit string) (NumEnt, bool) {
-	if !rfcNumber(lit) || len(lit) > 400 {
+	if !rfcNumber(lit) || len(lit) > 200000 {
 		return NumEnt{}, false
+	}
+	e := NumEnt{T: strToInts(lit), F64: []int{}, F32: []int{}, I: []int{}, S: []int{}}
+	neg := lit[0] == '-'
+	// exponents far outside the float64 range are decided without expanding them
+	if k := strings.IndexAny(lit, "eE"); k >= 0 {
+		exp := strings.TrimLeft(lit[k+1:], "+-0")
+		if len(exp) > 4 {
+			mant := strings.Trim(lit[:k], "-0.")
+			zero := mant == "" || strings.Trim(mant, "0.") == ""
+			if zero || lit[k+1] == '-' {
+				f := 0.0
+				if neg {
+					f = math.Copysign(0, -1)
+				}
+				e.F64, e.S, e.F32 = f64bits(f), f32bits(float32(f)), f32bits(float32(f))
+				if zero {
+					e.I = canonU(0)
+				}
+			}
+			return e, true
+		}
 	}
 	r, ok := new(big.Rat).SetString(lit)
 	if !ok {
 		return NumEnt{}, false
 	}
-	e := NumEnt{T: strToInts(lit), F64: []int{}, F32: []int{}, I: []int{}, S: []int{}}
-	neg := lit[0] == '-'
 	f, _ := r.Float64()
 	if r.Sign() == 0 && neg {
 		f = math.Copysign(0, -1)
